@@ -237,6 +237,8 @@ struct ConnGate {
     at_expiry: u32,
     /// the last MTU probe sent: (path remote, size, packet number)
     probe: Option<(SocketAddr, usize, u64)>,
+    /// `black_holes_detected` when that probe was sent
+    probe_black_holes: u64,
     floor_reported: bool,
     /// every packet seen leaving that counts as in flight (RFC 9002: ack-eliciting or padded): (space, pn)
     sent_in_flight: Vec<(u8, u64)>,
@@ -311,6 +313,12 @@ impl GateState {
         let mtu = before.path.current_mtu as usize;
         let window = before.path.cwnd;
         let mut in_flight = before.path.in_flight_bytes;
+        // Packets can leave the bytes in flight DURING a `poll_transmit`: a client abandons its Initial packets when it
+        // builds its first Handshake packet (RFC 9001 §4.9.1). The bytes in flight before packet k are therefore also
+        // bounded from the state AFTER the call: what is in flight then, minus packet k and everything built after it.
+        // The smaller of the two estimates is used (exact before such an abandonment / after it respectively).
+        let after_in_flight = if on_path { sim.snap(node, ch).path.in_flight_bytes } else { 0 };
+        let mut tail_in_flight: u64 = if on_path { pkts.iter().filter(|p| counts_in_flight(p)).map(|p| p.len as u64).sum() } else { 0 };
         if on_path && in_flight + mtu as u64 >= window {
             self.window_limited += 1;
         }
@@ -352,10 +360,14 @@ impl GateState {
                 } else {
                     self.count("mtu-probes");
                     let g = self.conns.entry((node, ch)).or_default();
+                    let bh = sim.nodes[node].conns[&ch].conn.stats().path.black_holes_detected;
                     if let Some((_, size, pn)) = g.probe {
-                        sim.fail("mtu-two-probes-outstanding", format!("node {node} conn {ch}: MTU probe of {len} bytes (pn {}) sent while the probe of {size} bytes (pn {pn}) is neither acknowledged nor declared lost (estimate {mtu})", d[0].pn));
+                        // recorded finding: a detected black hole ends the search and forgets the probe in flight
+                        let key = if bh > g.probe_black_holes { "mtu-two-probes-outstanding-after-black-hole" } else { "mtu-two-probes-outstanding" };
+                        sim.fail(key, format!("node {node} conn {ch}: MTU probe of {len} bytes (pn {}) sent while the probe of {size} bytes (pn {pn}) is neither acknowledged nor declared lost (estimate {mtu})", d[0].pn));
                     }
                     g.probe = Some((before.path.remote, len, d[0].pn));
+                    g.probe_black_holes = bh;
                 }
             }
             if node == CLIENT && d.iter().any(|p| p.space == 0) && len < 1200 {
@@ -392,18 +404,23 @@ impl GateState {
             for p in d {
                 let ae = ack_eliciting(p);
                 let exempt = has(p, T_PATH_CHALLENGE) || has(p, T_PATH_RESPONSE) || has(p, T_CLOSE) || has(p, T_APP_CLOSE) || is_probe;
+                let eff = in_flight.min(after_in_flight.saturating_sub(tail_in_flight));
+                if on_path && eff < in_flight {
+                    self.count("in-flight-dropped-during-transmit");
+                }
                 if on_path && ae {
                     self.count("ack-eliciting-packets");
-                    if in_flight + p.len as u64 >= window {
+                    if eff + p.len as u64 >= window {
                         if exempt {
                             self.count(if is_probe { "beyond-window:mtu-probe" } else if has(p, T_CLOSE) || has(p, T_APP_CLOSE) { "beyond-window:close" } else { "beyond-window:path-validation" });
                         } else if beyond.is_none() {
-                            beyond = Some(format!("space {} pn {} {}B frames {:x?} with {in_flight} bytes in flight and window {window} (sender assumed ack-eliciting: {})", p.space, p.pn, p.len, p.frame_types, p.assumed_ack_eliciting));
+                            beyond = Some(format!("space {} pn {} {}B frames {:x?} with {eff} bytes in flight and window {window} (sender assumed ack-eliciting: {})", p.space, p.pn, p.len, p.frame_types, p.assumed_ack_eliciting));
                         }
                     }
                 }
                 if on_path && counts_in_flight(p) {
                     in_flight += p.len as u64;
+                    tail_in_flight -= p.len as u64;
                 }
                 if counts_in_flight(p) {
                     self.conns.entry((node, ch)).or_default().sent_in_flight.push((p.space, p.pn));
@@ -420,7 +437,10 @@ impl GateState {
                     let space = d[0].space as usize;
                     let credit = before.spaces.iter().skip(space).any(|s| s.loss_probes > 0);
                     let since = g.pto_at.map_or("no PTO expired yet".to_string(), |t| format!("two datagrams already went beyond the window since the PTO expiry at t={t}"));
-                    let key = if credit { "cwnd-more-than-two-probes-per-pto" } else { "cwnd-exceeded-by-non-exempt-packet" };
+                    // the recorded finding `cwnd-handshake-packet-coalesced-beyond-window`: the first offending packet is an
+                    // Initial/Handshake packet that follows a packet of this datagram which is not ack-eliciting
+                    let hs_coalesced = d.iter().position(|p| ack_eliciting(p)).is_some_and(|i| i > 0 && d[i].space < 2 && what.starts_with(&format!("space {} pn {} ", d[i].space, d[i].pn)));
+                    let key = if credit { "cwnd-more-than-two-probes-per-pto" } else if hs_coalesced { "cwnd-handshake-packet-coalesced-beyond-window" } else { "cwnd-exceeded-by-non-exempt-packet" };
                     sim.fail(key, format!("node {node} conn {ch}: {what}; {since}; loss_probes before {:?}; datagram {i} of {n} ({len}B): {}", before.spaces.iter().map(|s| s.loss_probes).collect::<Vec<_>>(), desc()));
                 }
             }
